@@ -298,14 +298,18 @@ pub fn gen_knobs(rng: &mut Rng, m: Meth) -> Knobs {
     }
     if m == Meth::RADAU {
         if rng.bool(0.4) {
-            k.newton_maxiter = Some(rng.int(4, 10));
+            // (any value >= 1 is valid; 1 and 2 take a different path through the Newton loop)
+            k.newton_maxiter = Some(*rng.pick(&[1usize, 2, 3, 4, 5, 7, 10]));
         }
         if rng.bool(0.3) {
             k.predictive = Some(false);
         }
     }
     if m == Meth::BDF && rng.bool(0.4) {
-        k.newton_maxiter = Some(rng.int(3, 6));
+        // (BDF detects convergence from the ratio of two successive corrections, so a budget of one
+        // iteration can only ever 'converge' on an exactly zero correction - a configuration that
+        // cannot work and is not drawn)
+        k.newton_maxiter = Some(rng.int(2, 6));
     }
     k
 }
